@@ -181,6 +181,7 @@ def run_driver(suite, tier, seed, out, plan=None, only_sess=None, timeout=3600):
 
 
 VLINE = re.compile(r'^<<"V", "(.*)">>$')
+VANY = re.compile(r'<<\s*"V",\s*"(\[.*?\])"\s*>>', re.S)
 PLINE = re.compile(r'^<<"PLAN", "(.*)">>$')
 
 
@@ -200,11 +201,9 @@ def validate_trace(spec, trace, workers=16, timeout=3600, cfg=None, heap="6g", s
     r = run_tlc(spec, cfg=cfg, env={"TRACE": trace}, workers=workers, timeout=timeout, heap=heap, tag=spec + "." + os.path.basename(trace))
     out = r["out"]
     verdicts = {}
-    for line in out.splitlines():
-        m = VLINE.match(line.strip())
-        if m:
-            v = json.loads(unescape_tla(m.group(1)))
-            verdicts[v[0]] = v
+    for m in VANY.finditer(out):          # tolerant of TLC's pretty-printer wrapping long tuples over two lines
+        v = json.loads(unescape_tla(m.group(1)))
+        verdicts[v[0]] = v
     if r["rc"] == -9:
         raise ToolError("trace validation %s timed out" % spec)
     if "Model checking completed. No error has been found." not in out:
